@@ -22,6 +22,7 @@ for m in sorted(glob.glob('/verif/seeded/*/meta.json')):
     j = json.load(open(m)); n = os.path.basename(os.path.dirname(m))
     needs = re.sub(r'\s+', ' ', j.get('what_it_needs_to_manifest', ''))[:260].replace('|', '\\|')
     res = ("yes — " + "; ".join(j.get('violation_classes', [])[:2])) if j.get('caught') else "NO (see note)"
+    if j.get('caught') and j.get('missed_before_strengthening'): res = "yes, after strengthening (missed by the check as first built) — " + res[6:]
     if j.get('note'): res += " — " + j['note'][:200]
     t14.append(f"| {n} | {j['property']} | {needs} | {res[:420]} |")
 man = json.load(open('/verif/MANIFEST.json'))
